@@ -41,7 +41,7 @@ def big_file(rng, cl, little, nsec, variant):
 
 def gen(rng, tier):
     cases = []
-    n = 220 if tier == "quick" else 8000
+    n = 220 if tier == "quick" else 1500
     for i in range(n):
         e, info = elfgen.sample_elf(rng, kinds=rng.choice([None, ["text", "symtab", "dynsym", "dynamic", "versions"], ["text"]]))
         e.with_shdrs = rng.random() < 0.92
